@@ -971,3 +971,23 @@ def the_running_flag_is_read_under_the_send_lock(ctx):
                   'meanwhile, this sender still writes its frame behind the broken one and sets running back to True - the connection stays activated with a lost update', f)
     if n < 1:
         raise AnchorMissing('send_reply sending inside a send_lock region not found in the interfaces')
+
+
+@rule('C08.R11', min_instances=1)
+def request_handlers_run_inside_the_dispatcher_lock(ctx):
+    """Dispatcher.handle_request: the looked-up handle_<action> is CALLED inside `with self._lock:` - activate / deactivate of
+    different connections walk and change the same subscription tables (unsubscribe iterates `_subscriptions.items()` while a
+    subscribe of another connection adds a key); with only the lookup serialised a deactivate dies half way with "dictionary
+    changed size during iteration" and its connection keeps receiving the updates of the scope it cancelled"""
+    m = ctx.m
+    hr = m.method('frappy.protocol.dispatcher.Dispatcher', 'handle_request', inherited=False)
+    ctx.analysed(hr)
+    # the handler object: a local bound to getattr(self, ...) (or to the result of a helper method that does the lookup)
+    hv = {x.targets[0].id for x in body_walk(hr.node) if isinstance(x, ast.Assign) and len(x.targets) == 1 and isinstance(x.targets[0], ast.Name)
+          and isinstance(x.value, ast.Call) and (dotted(x.value.func) == 'getattr' or (isinstance(x.value.func, ast.Attribute) and dotted(x.value.func.value) == 'self'))}
+    calls = [c for c in calls_in(hr.node) if isinstance(c.func, ast.Name) and c.func.id in hv and len(c.args) >= 3]
+    if not calls:
+        raise AnchorMissing('call of the looked-up handler (handler(conn, specifier, data)) not found in Dispatcher.handle_request')
+    for c in calls:
+        ctx.check(in_lock(c, '_lock'), f'{hr.qualname}:handlers run inside the dispatcher lock', c, 'the handler call lies in the _lock region',
+                  f'`{src(c)}` runs outside `with self._lock:`: activate / deactivate requests of different connections interleave on the subscription tables', hr)
